@@ -24,16 +24,51 @@
 #include <vector>
 #include <sys/wait.h>
 #include <unistd.h>
+#include <cerrno>
+#include <climits>
+#include <condition_variable>
+#include <cstring>
+#include <functional>
+#include <mutex>
+#include <thread>
+#include <linux/futex.h>
+#include <time.h>
 #include "life.h"
+#define private public
+#include "vsched.h"
+#undef private
 #define private public
 #define protected public
 #include <dispenso/spsc_ring_buffer.h>
 #undef private
 #undef protected
-#include "vsched.h"
 
-using T = life::L<4, 0>;
+using Base = life::L<4, 0>;
 using Led = life::Ledger<0>;
+// ---- payload accesses must happen inside their own scheduler step: the element type checks, for every construction,
+// move-out and destruction that touches a SLOT address on an enrolled thread, that the thread's last granted hook site is
+// the matching payload site (*.data_write / *.data_read / *.data_destroy).  A mismatch (e.g. a destructor call that was
+// moved behind the store that hands the slot back) is counted as `stray` and reported as the 4th misuse counter.
+static const char* g_lo = nullptr;
+static const char* g_hi = nullptr;
+static std::atomic<long> g_stray{0};
+static void payloadAccess(const void* p, const char* want) {
+  if (vs::t_self < 0 || !vs::g_sched) return;
+  const char* c = static_cast<const char*>(p);
+  if (c < g_lo || c >= g_hi) return;
+  const std::string& site = vs::g_sched->ths_[vs::t_self]->site;
+  size_t n = strlen(want);
+  if (site.size() < n || site.compare(site.size() - n, n, want) != 0) g_stray++;
+}
+struct E : Base {
+  explicit E(int t) noexcept : Base(t) { payloadAccess(this, "data_write"); }
+  E(const E& o) noexcept : Base(o) { payloadAccess(this, "data_write"); }
+  E(E&& o) noexcept : Base(std::move(o)) { payloadAccess(this, "data_write"); payloadAccess(&o, "data_read"); }
+  E& operator=(const E& o) noexcept { Base::operator=(o); return *this; }
+  E& operator=(E&& o) noexcept { payloadAccess(&o, "data_read"); Base::operator=(std::move(o)); return *this; }
+  ~E() { payloadAccess(this, "data_destroy"); }
+};
+using T = E;
 
 struct Op {
   char k;
@@ -154,7 +189,7 @@ struct SlotErrs {
   }
   std::string line() const {
     std::ostringstream o;
-    o << e[0] << " " << e[1] << " " << e[2] << " 0 0";
+    o << e[0] << " " << e[1] << " " << e[2] << " " << g_stray.load() << " 0";
     return o.str();
   }
 };
@@ -167,6 +202,8 @@ static void runCase(long budget, const std::vector<std::vector<Op>>& progs, cons
   const size_t K = Buf::kBufferSize;
   std::vector<const void*> addr(K);
   for (size_t i = 0; i < K; ++i) addr[i] = b->elementAt(i);
+  g_lo = reinterpret_cast<const char*>(b->storage_);
+  g_hi = g_lo + sizeof(b->storage_);
   Led::set_trace(true);
   SlotErrs se;
   vs::Sched S(sched, budget, false);
